@@ -39,7 +39,7 @@ def gen_image(rng, R, small=True, idx=0):
         "disc_number": rng.choice([1, 2]), "disc_count": rng.choice([1, 2]),
         "checksums": rng.choice([{"sha256": "a" * 64}, {"sha256": "b" * 64}, {"md5": "c" * 32, "sha256": "a" * 64}]),
         "implant_md5": rng.choice([None, "0123456789abcdef" * 2]), "bootable": rng.random() < 0.5,
-        "subvariant": rng.choice(["Server", "KDE"] if small else ["Server", "KDE", "", "Workstation"]),
+        "subvariant": rng.choice(["Server", "", "KDE"] if small else ["Server", "KDE", "", "Workstation"]),
         "unified": unified, "additional_variants": (rng.sample(VARIANTS, rng.randint(1, 2)) if unified and rng.random() < 0.7 else []),
     }
     return img
